@@ -333,7 +333,7 @@ def library() -> List[Dict[str, Any]]:
     u8 = {"name": "u8", "dct": U8}
     lin = {"cat": "LINEAR", "i2p": [{"num": [1, 2], "den": [1]}]}
     tt = {"cat": "TEXTTABLE", "i2p": [{"lo": 0, "hi": 0, "const": "off"}, {"lo": 1, "hi": 1, "const": "on"},
-                                      {"lo": 2, "hi": 3, "const": "auto"}]}
+                                      {"lo": 2, "hi": 3, "const": "auto", "inv": 3}]}
     lib: List[Dict[str, Any]] = [
         u8,
         {"name": "u16", "dct": std("A_UINT32", 16)},
@@ -353,6 +353,11 @@ def library() -> List[Dict[str, Any]]:
         {"kind": "struct", "name": "S_sized", "byte_size": 3, "params": [P("VALUE", "a", dop="u8")]},
         {"kind": "struct", "name": "S_item", "params": [P("VALUE", "a", dop="u8"), P("VALUE", "b", dop="u8")]},
         {"kind": "struct", "name": "S_one", "params": [P("VALUE", "a", dop="u8")]},
+        {"name": "u8b4", "dct": std("A_UINT32", 8)},
+        {"name": "f32lim", "dct": std("A_FLOAT32", 32), "phys": "A_FLOAT32",
+         "cm": {"cat": "LINEAR", "i2p": [{"lo": 0, "hi": 100, "num": [0, 1], "den": [1]}]}},
+        {"name": "pl_lib", "dct": {"k": "PLEN", "base": "A_BYTEFIELD", "key": "lk", "key_id": "L.LK.S_lk"}},
+        {"kind": "struct", "name": "S_lk", "params": [P("LENGTH-KEY", "lk", dop="u8", id="L.LK.S_lk", byte=0), P("VALUE", "v", dop="pl_lib", byte=1)]},
         {"kind": "struct", "name": "S_dyn", "params": [P("VALUE", "a", dop="u8"), P("VALUE", "s", dop="bz")]},
         {"kind": "eopfield", "name": "EOPD", "of": "S_dyn"},
         {"kind": "dlfield", "name": "DLD", "of": "S_dyn", "offset": 1, "count": {"byte": 0, "dop": "u8"}},
@@ -408,7 +413,10 @@ def templates() -> Dict[str, Any]:
     reg("VTT", 1, lambda i: [{f"t{i}": "off"}, {f"t{i}": "auto"}], lambda i: [P("VALUE", f"t{i}", dop="tt")])
     reg("RES8", 1, lambda i: [{}], lambda i: [P("RESERVED", f"r{i}", bits=8)])
     reg("RES4", 1, lambda i: [{}], lambda i: [P("RESERVED", f"rh{i}", bits=4, bit=4)])
-    reg("SYS", 1, lambda i: [{f"s{i}": 30}], lambda i: [P("SYSTEM", f"s{i}", dop="u8", sysparam="SECOND")])
+    reg("V8b4", 2, lambda i: [{f"vb{i}": 0}, {f"vb{i}": 0xA5}, {f"vb{i}": 255}], lambda i: [P("VALUE", f"vb{i}", dop="u8b4", bit=4)])
+    reg("VF32", 4, lambda i: [{f"vf{i}": 1.5}, {f"vf{i}": 100.0}, {f"vf{i}": 0.0}], lambda i: [P("VALUE", f"vf{i}", dop="f32lim")])
+    reg("SLK", None, lambda i: [{f"slk{i}": {"v": b"\x01\x02"}}, {f"slk{i}": {"v": b""}}, {f"slk{i}": {"v": b"\x07", "lk": 8}}], lambda i: [P("VALUE", f"slk{i}", dop="S_lk")])
+    reg("SYS", 1, lambda i: [{f"s{i}": 30}, {f"s{i}": 0}], lambda i: [P("SYSTEM", f"s{i}", dop="u8", sysparam="SECOND")])
     reg("LK", None, lambda i: [{f"lv{i}": b""}, {f"lv{i}": b"\x01\x02"}, {f"lv{i}": b"\x09", f"lk{i}": 8}],
         lambda i: [P("LENGTH-KEY", f"lk{i}", dop="u8", id=f"L.LK.@PID@.{i}"), P("VALUE", f"lv{i}", dop=f"@PLEN@{i}")])
     reg("TKS", None, lambda i: [{f"ts{i}": ("r1", _item(1, 2))}, {f"ts{i}": ("r2", 0x1234)}, {f"ts{i}": ("r3", {"a": 9, "b": 0xBEEF}), f"tk{i}": "r3"}],
@@ -454,9 +462,9 @@ def templates() -> Dict[str, Any]:
     return T
 
 
-SIGMA_FULL = ["CC8", "CC16L", "CCNIB", "PC", "V8", "V12b", "VLIN", "VDEF", "VTT", "RES8", "RES4", "SYS", "LK", "TKS", "TKSROW", "SFLAT",
+SIGMA_FULL = ["CC8", "CC16L", "CCNIB", "PC", "V8", "V12b", "V8b4", "VF32", "SLK", "VLIN", "VDEF", "VTT", "RES8", "RES4", "SYS", "LK", "TKS", "TKSROW", "SFLAT",
               "SSUB", "SNEST", "SSIZED", "SF2", "SF2p", "DL1", "DL2", "EOP", "EMLAST", "EMCC", "MUXd", "MUXn", "MUXe", "SDYN", "EOPD", "DLD", "EMD", "MUXD", "DTC", "DTCENV", "BZ", "BEOP", "LEAD"]
-SIGMA_3 = ["CC8", "V8", "V12b", "VDEF", "RES8", "LK", "TKS", "SFLAT", "SSIZED", "SF2p", "DL1", "EOP", "MUXd", "DTCENV", "BZ", "SDYN", "EOPD"]
+SIGMA_3 = ["CC8", "V8", "V12b", "V8b4", "VDEF", "RES8", "LK", "TKS", "SFLAT", "SSIZED", "SF2p", "DL1", "EOP", "MUXd", "DTCENV", "BZ", "SDYN", "EOPD"]
 SIGMA_4 = ["CC8", "V12b", "SSIZED", "DL1", "MUXd", "BZ"]
 MODES = ["auto", "at", "hole"]
 
